@@ -250,6 +250,14 @@ def run(ctx, repo, tier):
                                                           "repeated_natural_num[full_grid_indices]", witness=r_ or vstr(res)[:300])
         # default: all rows
         res = interp.call_value(interp.getattr(fg, helper), [], {}, None, None)
+        if isinstance(res, Grid) and res.ndim == 1 and len(res.dims[0]) > 1 and isinstance(res.elem, Num):
+            # the table itself (np.tile / np.repeat keep a product axis): read it through its flat index n
+            d_ = interp.iter_desc(res)
+            if d_ is not None:
+                nn_ = interp.fresh_idx("n")
+                e_ = d_[1](Poly.atom(nn_))
+                if isinstance(e_, Num):
+                    res = Grid([[(nn_, d_[0])]], e_)
         ok = isinstance(res, Grid) and res.ndim == 1 and res.dim_len(0) == N and isinstance(res.elem, Num) and \
             simplify_divmod(res.elem.p) == Poly.app(digit, Poly.atom(res.dims[0][0][0]), n_b)
         if ok:
